@@ -335,6 +335,7 @@ pub fn doc(path: &str, format: Format, tests: Vec<Test>) -> Doc {
         file_symlink: false,
         fence_wide_gap: false,
         long_closing_fence: false,
+        unreadable: None,
     }
 }
 
